@@ -146,9 +146,14 @@ def position_layout(ctx, rule="R16.7"):
 
 def run(ctx):
     position_layout(ctx)
+    from .C11 import requested_positions
+
+    requested_positions(ctx, rule="R16.8")  # the field is evaluated at the positions of THIS call (shared with C11): a divergence taken over two calls needs both at their own points
     from . import C15_kernels as _K
 
     _K.accumulator_reset(ctx, rule="R16.6")  # mode-summation kernels: phase reset per mode, every point and mode visited (shared with C15)
+    _K.accumulator_complete(ctx, rule="R16.6")
+    _K.build_independent(ctx, rule="R16.6")
     _K.full_extent(ctx, rule="R16.6")
     _K.zero_init(ctx, rule="R16.6")
     from . import C15_bounds
